@@ -1,20 +1,1245 @@
-//! C07 harness (probe stage)
-use std::io::BufRead;
-use std::path::Path;
+//! C07 harness: names and overloaded calls resolve as the VHDL visibility rules dictate.
+//!
+//! usage: c07 <mode> <seed> <n> <workdir> <cases_out> <impl_out>
+//!   mode = random | deep | file:<path> ; c07 probe <dir> <file>...  (stdin: `file line col` queries)
+//!
+//! cases_out: one abstract program per line (parsed by ocaml/c07_run.ml and by `parse_program` below):
+//!   program := unit ('|' unit)*
+//!   unit    := uid ',' ('P' package | 'E' entity | 'S'<uid of the primary>) ',' ctx-items ',' body-items ',' lib
+//!   items   := item (' ' item)*
+//!   item    := 'D'ent | 'A'<pkg> (use pkg.all) | 'N'<pkg>':'<des> (use pkg.des) | 'S'<sid>':'<des>':'usage
+//!            | 'Ob' block | 'Op' process | 'F'ent'~'ent (function body f, parameter) | 'C' close
+//!   ent     := id ':' des ':' kind ['@' id of the declaration this body completes]
+//!   kind    := 'O'ty constant | 'F'ty'/'ty function(param, result) | 'L'ty literal | 'T'ty('/'id'.'des)* type
+//!   usage   := 'v'ty value expected | 'c'('u' | ty)'/'ty call(actual, result) | 't' type mark
+//!   ty      := 'i'<n> integer types (i0 = INTEGER) | 'o'<n> other types (o0 = BOOLEAN, o1 = CHARACTER)
+//!   des     := 0..7 identifiers v<n> | 9 identifier x | 10..17 identifiers t<n> | 20 "-" | 21 "+" | 30 'a' | 31 'b'
+//!              | >= 100 identifiers z<n> (one reserved literal per enumeration type)
+//! impl_out: per program `site site ... ; extra` with site = sid:target:class:codes where
+//!   target = declaration id | EXT (declared outside the program, e.g. in std) | - (find_declaration = None)
+//!            | POS<file>.<line>.<col> (a position that is no declaration of the program)
+//!   class  = OK | CONFLICT | UNDECL | ERROR  (error diagnostics on the line of the site)
+//!   extra  = error diagnostics on lines without a use site (`file.line.code`), `PANIC` if analysis panicked.
+use std::collections::HashMap;
+use std::fmt::Write as _;
+use std::io::{BufRead, Write as _};
+use std::panic::{catch_unwind, AssertUnwindSafe};
+use std::path::{Path, PathBuf};
+use verif_harness::rng::Rng;
 use vhdl_lang::{Config, NullMessages, Position, Project, Severity, SeverityMap};
 
-fn probe(args: &[String]) {
-    let dir = &args[0];
-    let files = &args[1..];
+// ------------------------------------------------------------------------------------------------
+// abstract programs
+// ------------------------------------------------------------------------------------------------
+#[derive(Clone, Copy, PartialEq, Eq, Hash, Debug)]
+enum Ty {
+    Int(u32),
+    Oth(u32),
+}
+const T_INTEGER: Ty = Ty::Int(0);
+const T_BOOLEAN: Ty = Ty::Oth(0);
+
+#[derive(Clone, PartialEq, Debug)]
+enum Kind {
+    Obj(Ty),
+    Func(Ty, Ty),
+    Lit(Ty),
+    Type(Ty, Vec<(u32, u32)>),
+}
+#[derive(Clone, PartialEq, Debug)]
+struct Ent {
+    id: u32,
+    des: u32,
+    kind: Kind,
+    declby: Option<u32>,
+}
+#[derive(Clone, Copy, PartialEq, Debug)]
+enum Arg {
+    Univ,
+    Ty(Ty),
+}
+#[derive(Clone, Copy, PartialEq, Debug)]
+enum Usage {
+    Val(Ty),
+    Call(Arg, Ty),
+    Type,
+}
+#[derive(Clone, PartialEq, Debug)]
+enum Item {
+    Decl(Ent),
+    UseAll(u32),
+    UseName(u32, u32),
+    Site(u32, u32, Usage),
+    OpenBlock,
+    OpenProcess,
+    OpenFun(Ent, Ent),
+    Close,
+}
+#[derive(Clone, Copy, PartialEq, Debug)]
+enum UKind {
+    Package,
+    Entity,
+    Secondary(u32),
+}
+#[derive(Clone, Debug)]
+struct Unit {
+    uid: u32,
+    kind: UKind,
+    ctx: Vec<Item>,
+    body: Vec<Item>,
+    lib: u32,
+}
+type Program = Vec<Unit>;
+
+fn ser_ty(t: Ty) -> String {
+    match t {
+        Ty::Int(n) => format!("i{n}"),
+        Ty::Oth(n) => format!("o{n}"),
+    }
+}
+fn ser_ent(e: &Ent) -> String {
+    let k = match &e.kind {
+        Kind::Obj(t) => format!("O{}", ser_ty(*t)),
+        Kind::Func(p, r) => format!("F{}/{}", ser_ty(*p), ser_ty(*r)),
+        Kind::Lit(t) => format!("L{}", ser_ty(*t)),
+        Kind::Type(t, lits) => {
+            let mut s = format!("T{}", ser_ty(*t));
+            for (i, d) in lits {
+                write!(s, "/{i}.{d}").unwrap();
+            }
+            s
+        }
+    };
+    match e.declby {
+        Some(b) => format!("{}:{}:{}@{}", e.id, e.des, k, b),
+        None => format!("{}:{}:{}", e.id, e.des, k),
+    }
+}
+fn ser_item(it: &Item) -> String {
+    match it {
+        Item::Decl(e) => format!("D{}", ser_ent(e)),
+        Item::UseAll(p) => format!("A{p}"),
+        Item::UseName(p, d) => format!("N{p}:{d}"),
+        Item::Site(s, d, u) => {
+            let us = match u {
+                Usage::Val(t) => format!("v{}", ser_ty(*t)),
+                Usage::Call(a, t) => format!(
+                    "c{}/{}",
+                    match a {
+                        Arg::Univ => "u".to_string(),
+                        Arg::Ty(x) => ser_ty(*x),
+                    },
+                    ser_ty(*t)
+                ),
+                Usage::Type => "t".to_string(),
+            };
+            format!("S{s}:{d}:{us}")
+        }
+        Item::OpenBlock => "Ob".to_string(),
+        Item::OpenProcess => "Op".to_string(),
+        Item::OpenFun(f, p) => format!("F{}~{}", ser_ent(f), ser_ent(p)),
+        Item::Close => "C".to_string(),
+    }
+}
+fn ser_items(v: &[Item]) -> String {
+    v.iter().map(ser_item).collect::<Vec<_>>().join(" ")
+}
+fn ser_program(p: &Program) -> String {
+    p.iter()
+        .map(|u| {
+            let k = match u.kind {
+                UKind::Package => "P".to_string(),
+                UKind::Entity => "E".to_string(),
+                UKind::Secondary(q) => format!("S{q}"),
+            };
+            format!("{},{},{},{},{}", u.uid, k, ser_items(&u.ctx), ser_items(&u.body), u.lib)
+        })
+        .collect::<Vec<_>>()
+        .join("|")
+}
+
+fn parse_ty(s: &str) -> Result<Ty, String> {
+    let n: u32 = s.get(1..).ok_or("ty")?.parse().map_err(|_| format!("bad type {s}"))?;
+    match s.as_bytes()[0] {
+        b'i' => Ok(Ty::Int(n)),
+        b'o' => Ok(Ty::Oth(n)),
+        _ => Err(format!("bad type {s}")),
+    }
+}
+fn parse_ent(s: &str) -> Result<Ent, String> {
+    let f: Vec<&str> = s.split(':').collect();
+    if f.len() != 3 {
+        return Err(format!("bad ent {s}"));
+    }
+    let (k, declby) = match f[2].split_once('@') {
+        Some((k, b)) => (k, Some(b.parse::<u32>().map_err(|_| "declby")?)),
+        None => (f[2], None),
+    };
+    if k.is_empty() {
+        return Err("empty kind".into());
+    }
+    let body = &k[1..];
+    let kind = match k.as_bytes()[0] {
+        b'O' => Kind::Obj(parse_ty(body)?),
+        b'L' => Kind::Lit(parse_ty(body)?),
+        b'F' => {
+            let (p, r) = body.split_once('/').ok_or("F")?;
+            Kind::Func(parse_ty(p)?, parse_ty(r)?)
+        }
+        b'T' => {
+            let mut parts = body.split('/');
+            let t = parse_ty(parts.next().ok_or("T")?)?;
+            let mut lits = vec![];
+            for l in parts {
+                let (i, d) = l.split_once('.').ok_or("lit")?;
+                lits.push((i.parse().map_err(|_| "lit id")?, d.parse().map_err(|_| "lit des")?));
+            }
+            Kind::Type(t, lits)
+        }
+        _ => return Err(format!("bad kind {k}")),
+    };
+    Ok(Ent {
+        id: f[0].parse().map_err(|_| "id")?,
+        des: f[1].parse().map_err(|_| "des")?,
+        kind,
+        declby,
+    })
+}
+fn parse_item(s: &str) -> Result<Item, String> {
+    let body = &s[1..];
+    Ok(match s.as_bytes()[0] {
+        b'D' => Item::Decl(parse_ent(body)?),
+        b'A' => Item::UseAll(body.parse().map_err(|_| "A")?),
+        b'N' => {
+            let (p, d) = body.split_once(':').ok_or("N")?;
+            Item::UseName(p.parse().map_err(|_| "N")?, d.parse().map_err(|_| "N")?)
+        }
+        b'S' => {
+            let f: Vec<&str> = body.split(':').collect();
+            if f.len() != 3 || f[2].is_empty() {
+                return Err(format!("bad site {s}"));
+            }
+            let u = match f[2].as_bytes()[0] {
+                b'v' => Usage::Val(parse_ty(&f[2][1..])?),
+                b't' => Usage::Type,
+                b'c' => {
+                    let (a, t) = f[2][1..].split_once('/').ok_or("c")?;
+                    Usage::Call(if a == "u" { Arg::Univ } else { Arg::Ty(parse_ty(a)?) }, parse_ty(t)?)
+                }
+                _ => return Err(format!("bad usage {s}")),
+            };
+            Item::Site(f[0].parse().map_err(|_| "sid")?, f[1].parse().map_err(|_| "sdes")?, u)
+        }
+        b'O' => {
+            if body == "p" {
+                Item::OpenProcess
+            } else {
+                Item::OpenBlock
+            }
+        }
+        b'C' => Item::Close,
+        b'F' => {
+            let (f, p) = body.split_once('~').ok_or("F")?;
+            Item::OpenFun(parse_ent(f)?, parse_ent(p)?)
+        }
+        _ => return Err(format!("bad item {s}")),
+    })
+}
+fn parse_items(s: &str) -> Result<Vec<Item>, String> {
+    s.split(' ').filter(|x| !x.is_empty()).map(parse_item).collect()
+}
+fn parse_program(s: &str) -> Result<Program, String> {
+    let mut p = vec![];
+    for u in s.split('|') {
+        let f: Vec<&str> = u.split(',').collect();
+        if f.len() < 4 || f[1].is_empty() {
+            return Err(format!("bad unit {u}"));
+        }
+        let kind = match f[1].as_bytes()[0] {
+            b'P' => UKind::Package,
+            b'E' => UKind::Entity,
+            b'S' => UKind::Secondary(f[1][1..].parse().map_err(|_| "S")?),
+            _ => return Err(format!("bad unit kind {u}")),
+        };
+        p.push(Unit {
+            uid: f[0].parse().map_err(|_| "uid")?,
+            kind,
+            ctx: parse_items(f[2])?,
+            body: parse_items(f[3])?,
+            lib: if f.len() > 4 { f[4].parse().map_err(|_| "lib")? } else { 0 },
+        });
+    }
+    Ok(p)
+}
+
+// ------------------------------------------------------------------------------------------------
+// rendering to VHDL
+// ------------------------------------------------------------------------------------------------
+struct TypeInfo {
+    pkg: u32,
+    name: u32,
+    lits: Vec<(u32, u32)>,
+}
+fn collect_types(p: &Program) -> HashMap<Ty, TypeInfo> {
+    let mut m = HashMap::new();
+    for u in p {
+        for it in u.body.iter() {
+            if let Item::Decl(Ent { des, kind: Kind::Type(t, lits), .. }) = it {
+                m.insert(*t, TypeInfo { pkg: u.uid, name: *des, lits: lits.clone() });
+            }
+        }
+    }
+    m
+}
+fn desig(d: u32) -> String {
+    match d {
+        0..=8 => format!("v{d}"),
+        9 => "x".to_string(),
+        10..=19 => format!("t{}", d - 10),
+        20 => "\"-\"".to_string(),
+        21 => "\"+\"".to_string(),
+        30 => "'a'".to_string(),
+        31 => "'b'".to_string(),
+        _ => format!("z{d}"),
+    }
+}
+fn is_op(d: u32) -> bool {
+    (20..30).contains(&d)
+}
+fn op_symbol(d: u32) -> &'static str {
+    if d == 20 {
+        "-"
+    } else {
+        "+"
+    }
+}
+
+struct Rendered {
+    /// (library index, file text) — one file per library
+    files: Vec<(u32, String)>,
+    /// (file index, line, col) of a declaration -> id
+    decls: HashMap<(usize, u32, u32), u32>,
+    /// sid -> (file index, line, col)
+    sites: Vec<(u32, usize, u32, u32)>,
+}
+
+struct Renderer<'a> {
+    prog: &'a Program,
+    types: HashMap<Ty, TypeInfo>,
+    libname: Box<dyn Fn(u32) -> String + 'a>,
+    lines: Vec<Vec<String>>, // per library
+    decls: HashMap<(usize, u32, u32), u32>,
+    sites: Vec<(u32, usize, u32, u32)>,
+    libs: Vec<u32>,
+    counter: u32,
+}
+#[derive(PartialEq, Clone, Copy)]
+enum RK {
+    Pkg,
+    PkgBody,
+    Entity,
+    Arch,
+    Block,
+    Process,
+    Func(Ty),
+}
+impl<'a> Renderer<'a> {
+    fn unit_lib(&self, uid: u32) -> u32 {
+        self.prog.iter().find(|u| u.uid == uid).map(|u| u.lib).unwrap_or(0)
+    }
+    fn libref(&self, pkg: u32, cur: &Unit) -> String {
+        let l = self.unit_lib(pkg);
+        if l == cur.lib && (pkg + cur.uid) % 2 == 0 {
+            "work".to_string()
+        } else {
+            (self.libname)(l)
+        }
+    }
+    fn type_mark(&self, t: Ty, cur: &Unit) -> String {
+        match t {
+            Ty::Int(0) => "integer".to_string(),
+            Ty::Oth(0) => "boolean".to_string(),
+            Ty::Oth(1) => "character".to_string(),
+            Ty::Oth(2) => "real".to_string(),
+            _ => match self.types.get(&t) {
+                Some(ti) => format!("{}.p{}.{}", self.libref(ti.pkg, cur), ti.pkg, desig(ti.name)),
+                None => "integer".to_string(),
+            },
+        }
+    }
+    /// an expression of type t that needs no family lookup
+    fn value(&self, t: Ty, cur: &Unit) -> String {
+        match t {
+            Ty::Int(0) => "0".to_string(),
+            Ty::Oth(0) => "true".to_string(),
+            Ty::Oth(1) => "character'('c')".to_string(),
+            Ty::Oth(2) => "0.0".to_string(),
+            Ty::Int(_) => format!("{}'(1)", self.type_mark(t, cur)),
+            Ty::Oth(_) => match self.types.get(&t) {
+                Some(ti) => {
+                    let z = ti.lits.iter().find(|(_, d)| *d >= 100).or(ti.lits.first());
+                    match z {
+                        Some((_, d)) => format!("{}.p{}.{}", self.libref(ti.pkg, cur), ti.pkg, desig(*d)),
+                        None => "0".to_string(),
+                    }
+                }
+                None => "0".to_string(),
+            },
+        }
+    }
+    fn arg(&self, a: Arg, cur: &Unit) -> String {
+        match a {
+            Arg::Univ => "1".to_string(),
+            Arg::Ty(Ty::Int(0)) => "integer'(1)".to_string(),
+            Arg::Ty(t) => self.value(t, cur),
+        }
+    }
+    fn file_of(&mut self, lib: u32) -> usize {
+        match self.libs.iter().position(|l| *l == lib) {
+            Some(i) => i,
+            None => {
+                self.libs.push(lib);
+                self.lines.push(vec![]);
+                self.libs.len() - 1
+            }
+        }
+    }
+    fn emit(&mut self, f: usize, s: String) -> u32 {
+        self.lines[f].push(s);
+        (self.lines[f].len() - 1) as u32
+    }
+    fn items(&mut self, f: usize, cur: &Unit, top: RK, items: &[Item]) {
+        let mut stack: Vec<(RK, bool)> = vec![(top, false)];
+        let mut pending_lits: Vec<Ent> = vec![];
+        for it in items {
+            match it {
+                Item::Decl(e) => match &e.kind {
+                    Kind::Obj(t) => {
+                        let text = format!("constant {} : {} := {};", desig(e.des), self.type_mark(*t, cur), self.value(*t, cur));
+                        let l = self.emit(f, text);
+                        self.decls.insert((f, l, 9), e.id);
+                    }
+                    Kind::Func(p, r) => {
+                        let text = format!(
+                            "function {}(x : {}) return {};",
+                            desig(e.des),
+                            self.type_mark(*p, cur),
+                            self.type_mark(*r, cur)
+                        );
+                        let l = self.emit(f, text);
+                        self.decls.insert((f, l, 9), e.id);
+                    }
+                    Kind::Lit(_) => pending_lits.push(e.clone()),
+                    Kind::Type(t, lits) => {
+                        let name = desig(e.des);
+                        if lits.is_empty() {
+                            let lo = if matches!(t, Ty::Int(_)) { "range 0 to 7" } else { "range 0.0 to 1.0" };
+                            let l = self.emit(f, format!("type {name} is {lo};"));
+                            self.decls.insert((f, l, 5), e.id);
+                        } else {
+                            let mut text = format!("type {name} is (");
+                            let mut cols = vec![];
+                            for (k, (_, d)) in lits.iter().enumerate() {
+                                if k > 0 {
+                                    text.push_str(", ");
+                                }
+                                cols.push(text.len() as u32);
+                                text.push_str(&desig(*d));
+                            }
+                            text.push_str(");");
+                            let l = self.emit(f, text);
+                            self.decls.insert((f, l, 5), e.id);
+                            for (k, (i, _)) in lits.iter().enumerate() {
+                                self.decls.insert((f, l, cols[k]), *i);
+                            }
+                        }
+                        pending_lits.clear();
+                    }
+                },
+                Item::UseAll(p) => {
+                    let text = format!("use {}.p{}.all;", self.libref(*p, cur), p);
+                    self.emit(f, text);
+                }
+                Item::UseName(p, d) => {
+                    let text = format!("use {}.p{}.{};", self.libref(*p, cur), p, desig(*d));
+                    self.emit(f, text);
+                }
+                Item::Site(sid, d, u) => {
+                    let (text, col) = match u {
+                        Usage::Val(t) => {
+                            let pre = format!("constant u{} : {} := ", sid, self.type_mark(*t, cur));
+                            let c = pre.len() as u32;
+                            (format!("{}{};", pre, desig(*d)), c)
+                        }
+                        Usage::Call(a, t) => {
+                            let pre = format!("constant u{} : {} := ", sid, self.type_mark(*t, cur));
+                            let c = pre.len() as u32;
+                            if is_op(*d) {
+                                (format!("{}{} {};", pre, op_symbol(*d), self.arg(*a, cur)), c)
+                            } else {
+                                (format!("{}{}({});", pre, desig(*d), self.arg(*a, cur)), c)
+                            }
+                        }
+                        Usage::Type => {
+                            let pre = format!("subtype u{} is ", sid);
+                            let c = pre.len() as u32;
+                            (format!("{}{};", pre, desig(*d)), c)
+                        }
+                    };
+                    let l = self.emit(f, text);
+                    self.sites.push((*sid, f, l, col));
+                }
+                Item::OpenBlock | Item::OpenProcess => {
+                    if let Some(topf) = stack.last_mut() {
+                        if !topf.1 {
+                            topf.1 = true;
+                            self.lines[f].push("begin".to_string());
+                        }
+                    }
+                    self.counter += 1;
+                    if *it == Item::OpenBlock {
+                        self.emit(f, format!("b{} : block", self.counter));
+                        stack.push((RK::Block, false));
+                    } else {
+                        self.emit(f, format!("pr{} : process", self.counter));
+                        stack.push((RK::Process, false));
+                    }
+                }
+                Item::OpenFun(fe, pe) => {
+                    let (p, r) = match &fe.kind {
+                        Kind::Func(p, r) => (*p, *r),
+                        _ => (T_INTEGER, T_INTEGER),
+                    };
+                    let pre = format!("function {}(", desig(fe.des));
+                    let pcol = pre.len() as u32;
+                    let text = format!(
+                        "{}{} : {}) return {} is",
+                        pre,
+                        desig(pe.des),
+                        self.type_mark(p, cur),
+                        self.type_mark(r, cur)
+                    );
+                    let l = self.emit(f, text);
+                    // the body designates the same subprogram as the declaration it completes
+                    self.decls.insert((f, l, 9), fe.declby.unwrap_or(fe.id));
+                    self.decls.insert((f, l, pcol), pe.id);
+                    stack.push((RK::Func(r), false));
+                }
+                Item::Close => {
+                    if stack.len() > 1 {
+                        let (k, begun) = stack.pop().unwrap();
+                        self.close(f, cur, k, begun);
+                    }
+                }
+            }
+        }
+        while stack.len() > 1 {
+            let (k, begun) = stack.pop().unwrap();
+            self.close(f, cur, k, begun);
+        }
+        let (k, begun) = stack.pop().unwrap();
+        self.close(f, cur, k, begun);
+    }
+    fn close(&mut self, f: usize, cur: &Unit, k: RK, begun: bool) {
+        match k {
+            RK::Block => {
+                if !begun {
+                    self.emit(f, "begin".to_string());
+                }
+                self.emit(f, "end block;".to_string());
+            }
+            RK::Process => {
+                self.emit(f, "begin".to_string());
+                self.emit(f, "wait;".to_string());
+                self.emit(f, "end process;".to_string());
+            }
+            RK::Func(r) => {
+                self.emit(f, "begin".to_string());
+                let v = self.value(r, cur);
+                self.emit(f, format!("return {v};"));
+                self.emit(f, "end function;".to_string());
+            }
+            RK::Pkg => {
+                self.emit(f, "end package;".to_string());
+            }
+            RK::PkgBody => {
+                self.emit(f, "end package body;".to_string());
+            }
+            RK::Entity => {
+                self.emit(f, "end entity;".to_string());
+            }
+            RK::Arch => {
+                if !begun {
+                    self.emit(f, "begin".to_string());
+                }
+                self.emit(f, "end architecture;".to_string());
+            }
+        }
+    }
+    fn unit(&mut self, u: &Unit) {
+        let f = self.file_of(u.lib);
+        let mut libs: Vec<u32> = self.prog.iter().map(|x| x.lib).collect();
+        libs.sort();
+        libs.dedup();
+        let names: Vec<String> = libs.iter().map(|l| (self.libname)(*l)).collect();
+        self.emit(f, format!("library {};", names.join(", ")));
+        let ctx = u.ctx.clone();
+        for it in ctx.iter() {
+            match it {
+                Item::UseAll(p) => {
+                    let text = format!("use {}.p{}.all;", self.libref(*p, u), p);
+                    self.emit(f, text);
+                }
+                Item::UseName(p, d) => {
+                    let text = format!("use {}.p{}.{};", self.libref(*p, u), p, desig(*d));
+                    self.emit(f, text);
+                }
+                _ => {}
+            }
+        }
+        let top = match u.kind {
+            UKind::Package => {
+                self.emit(f, format!("package p{} is", u.uid));
+                RK::Pkg
+            }
+            UKind::Entity => {
+                self.emit(f, format!("entity e{} is", u.uid));
+                RK::Entity
+            }
+            UKind::Secondary(q) => {
+                let is_pkg = self.prog.iter().any(|x| x.uid == q && x.kind == UKind::Package);
+                if is_pkg {
+                    self.emit(f, format!("package body p{} is", q));
+                    RK::PkgBody
+                } else {
+                    self.emit(f, format!("architecture a{} of e{} is", u.uid, q));
+                    RK::Arch
+                }
+            }
+        };
+        self.items(f, u, top, &u.body);
+    }
+}
+fn render(p: &Program, libname: &dyn Fn(u32) -> String) -> Rendered {
+    let mut r = Renderer {
+        prog: p,
+        types: collect_types(p),
+        libname: Box::new(libname),
+        lines: vec![],
+        decls: HashMap::new(),
+        sites: vec![],
+        libs: vec![],
+        counter: 0,
+    };
+    for u in p {
+        r.unit(u);
+    }
+    let files = r
+        .libs
+        .iter()
+        .zip(r.lines.iter())
+        .map(|(l, ls)| (*l, ls.join("\n") + "\n"))
+        .collect();
+    Rendered { files, decls: r.decls, sites: r.sites }
+}
+
+// ------------------------------------------------------------------------------------------------
+// generator
+// ------------------------------------------------------------------------------------------------
+struct Gen {
+    r: Rng,
+    next_id: u32,
+    next_sid: u32,
+    next_ty: u32,
+    /// exclusion of the equal-profile corner: (des, param, result) of every package subprogram
+    pkg_profiles: Vec<(u32, Ty, Ty)>,
+    /// user types declared so far: (ty, is enumeration, declaring package)
+    types: Vec<(Ty, bool, u32)>,
+    /// per package: names that can be used in `use p.name`
+    pkg_names: HashMap<u32, Vec<u32>>,
+    /// per package: declared functions (to be completed in the body)
+    pkg_funcs: HashMap<u32, Vec<Ent>>,
+    /// per package: every declared entity
+    pkg_ents: HashMap<u32, Vec<Ent>>,
+    /// entities that are probably visible at the current point (declared or used in an enclosing region);
+    /// only a bias for the choice of use sites
+    pool: Vec<Ent>,
+    deep: bool,
+}
+/// what a region already declares, to avoid duplicate declarations
+#[derive(Default, Clone)]
+struct RegionNames {
+    single: Vec<u32>,
+    over: Vec<(u32, Option<Ty>, Ty)>,
+}
+impl RegionNames {
+    fn can_single(&self, d: u32) -> bool {
+        !self.single.contains(&d) && !self.over.iter().any(|o| o.0 == d)
+    }
+    fn can_over(&self, d: u32, p: Option<Ty>, r: Ty) -> bool {
+        !self.single.contains(&d) && !self.over.iter().any(|o| *o == (d, p, r))
+    }
+}
+const VALS: [u32; 4] = [0, 1, 2, 3];
+const TNAMES: [u32; 3] = [10, 11, 12];
+impl Gen {
+    fn id(&mut self) -> u32 {
+        self.next_id += 1;
+        self.next_id
+    }
+    fn avail(&self, t: Ty, upto_pkg: u32) -> bool {
+        matches!(t, Ty::Int(0) | Ty::Oth(0)) || self.types.iter().any(|x| x.0 == t && x.2 < upto_pkg)
+    }
+    fn any_type(&mut self, upto_pkg: u32) -> Ty {
+        let avail: Vec<Ty> = self.types.iter().filter(|t| t.2 < upto_pkg).map(|t| t.0).collect();
+        let k = self.r.below(avail.len() + 3);
+        match k {
+            0 | 1 => T_INTEGER,
+            2 => T_BOOLEAN,
+            _ => avail[k - 3],
+        }
+    }
+    fn op_param_type(&mut self, upto_pkg: u32) -> Ty {
+        // operators only on BOOLEAN and enumeration types: no predefined operator competes
+        let avail: Vec<Ty> = self.types.iter().filter(|t| t.2 < upto_pkg && t.1).map(|t| t.0).collect();
+        let k = self.r.below(avail.len() + 1);
+        if k == 0 {
+            T_BOOLEAN
+        } else {
+            avail[k - 1]
+        }
+    }
+    fn value_des(&mut self) -> u32 {
+        *self.r.pick(&VALS)
+    }
+    fn arg_for(&mut self, p: Ty) -> Arg {
+        match p {
+            Ty::Int(_) => {
+                if self.r.chance(2, 3) {
+                    Arg::Univ
+                } else {
+                    Arg::Ty(p)
+                }
+            }
+            _ => Arg::Ty(p),
+        }
+    }
+    fn site(&mut self, upto_pkg: u32) -> Item {
+        self.next_sid += 1;
+        let sid = self.next_sid;
+        if !self.pool.is_empty() && self.r.chance(7, 10) {
+            // a use that fits some declaration that is probably visible here
+            let e = self.pool[self.r.below(self.pool.len())].clone();
+            let exact = self.r.chance(5, 6);
+            let u = match &e.kind {
+                Kind::Obj(t) | Kind::Lit(t) => Usage::Val(if exact { *t } else { self.any_type(upto_pkg) }),
+                Kind::Func(p, r) => {
+                    let a = self.arg_for(*p);
+                    Usage::Call(a, if exact { *r } else { self.any_type(upto_pkg) })
+                }
+                Kind::Type(..) => Usage::Type,
+            };
+            let ok = match u {
+                Usage::Val(t) => self.avail(t, upto_pkg),
+                Usage::Call(a, t) => {
+                    self.avail(t, upto_pkg)
+                        && match a {
+                            Arg::Ty(x) => self.avail(x, upto_pkg),
+                            Arg::Univ => true,
+                        }
+                }
+                Usage::Type => true,
+            };
+            if e.des < 100 && ok {
+                return Item::Site(sid, e.des, u);
+            }
+        }
+        let k = self.r.below(100);
+        if k < 30 {
+            let t = self.any_type(upto_pkg);
+            Item::Site(sid, self.value_des(), Usage::Val(t))
+        } else if k < 65 {
+            let p = self.any_type(upto_pkg);
+            let a = self.arg_for(p);
+            let t = self.any_type(upto_pkg);
+            Item::Site(sid, self.value_des(), Usage::Call(a, t))
+        } else if k < 80 {
+            let p = self.op_param_type(upto_pkg);
+            let t = self.any_type(upto_pkg);
+            Item::Site(sid, 20 + self.r.below(2) as u32, Usage::Call(Arg::Ty(p), t))
+        } else if k < 92 {
+            let d = if self.r.chance(4, 5) { *self.r.pick(&TNAMES) } else { self.value_des() };
+            Item::Site(sid, d, Usage::Type)
+        } else {
+            // character literal in an expression (finding F23), target: an enumeration type
+            let enums: Vec<Ty> = self.types.iter().filter(|t| t.2 < upto_pkg && t.1).map(|t| t.0).collect();
+            let t = if enums.is_empty() { T_BOOLEAN } else { *self.r.pick(&enums) };
+            Item::Site(sid, 30 + self.r.below(2) as u32, Usage::Val(t))
+        }
+    }
+    fn use_item(&mut self, upto_pkg: u32) -> Option<Item> {
+        if upto_pkg <= 1 {
+            return None;
+        }
+        let p = 1 + self.r.below((upto_pkg - 1) as usize) as u32;
+        let ents = self.pkg_ents.get(&p).cloned().unwrap_or_default();
+        if self.r.chance(1, 2) {
+            self.pool.extend(ents);
+            Some(Item::UseAll(p))
+        } else {
+            let names = self.pkg_names.get(&p)?.clone();
+            if names.is_empty() {
+                return None;
+            }
+            let d = *self.r.pick(&names);
+            self.pool.extend(ents.into_iter().filter(|e| e.des == d));
+            Some(Item::UseName(p, d))
+        }
+    }
+    fn constant(&mut self, rn: &mut RegionNames, upto_pkg: u32) -> Option<Item> {
+        let d = if self.r.chance(1, 6) { *self.r.pick(&TNAMES) } else { self.value_des() };
+        if !rn.can_single(d) {
+            return None;
+        }
+        rn.single.push(d);
+        let t = self.any_type(upto_pkg);
+        let e = Ent { id: self.id(), des: d, kind: Kind::Obj(t), declby: None };
+        self.pool.push(e.clone());
+        Some(Item::Decl(e))
+    }
+    /// a fresh function entity; in_pkg: must not repeat a profile of another package
+    fn func_ent(&mut self, rn: &mut RegionNames, upto_pkg: u32, in_pkg: bool) -> Option<Ent> {
+        let d = if self.r.chance(1, 4) { 20 + self.r.below(2) as u32 } else { self.value_des() };
+        let p = if is_op(d) { self.op_param_type(upto_pkg) } else { self.any_type(upto_pkg) };
+        let r = self.any_type(upto_pkg);
+        if !rn.can_over(d, Some(p), r) {
+            return None;
+        }
+        if in_pkg {
+            if self.pkg_profiles.contains(&(d, p, r)) {
+                return None;
+            }
+            self.pkg_profiles.push((d, p, r));
+        }
+        rn.over.push((d, Some(p), r));
+        Some(Ent { id: self.id(), des: d, kind: Kind::Func(p, r), declby: None })
+    }
+    fn param(&mut self, p: Ty) -> Ent {
+        let d = if self.r.chance(2, 5) { self.value_des() } else { 9 };
+        Ent { id: self.id(), des: d, kind: Kind::Obj(p), declby: None }
+    }
+    /// a function body with its own small declarative part; f must be a Func entity
+    fn fun_body(&mut self, f: Ent, upto_pkg: u32, depth: u32, out: &mut Vec<Item>) {
+        let p = match &f.kind {
+            Kind::Func(p, _) => *p,
+            _ => T_INTEGER,
+        };
+        let pe = self.param(p);
+        let mut rn = RegionNames::default();
+        rn.single.push(pe.des);
+        let fdes = f.des;
+        self.pool.push(f.clone());
+        let mark = self.pool.len();
+        self.pool.push(pe.clone());
+        out.push(Item::OpenFun(f, pe));
+        let n = self.r.below(4);
+        for _ in 0..n {
+            if self.r.chance(1, 4) && !is_op(fdes) {
+                // recursive call
+                self.next_sid += 1;
+                let a = self.arg_for(p);
+                let t = self.any_type(upto_pkg);
+                out.push(Item::Site(self.next_sid, fdes, Usage::Call(a, t)));
+            } else {
+                self.decl_item(&mut rn, upto_pkg, depth + 1, false, out);
+            }
+        }
+        self.pool.truncate(mark);
+        out.push(Item::Close);
+    }
+    /// one declarative item (constant, function body, use clause or use site)
+    fn decl_item(&mut self, rn: &mut RegionNames, upto_pkg: u32, depth: u32, in_pkg_decl: bool, out: &mut Vec<Item>) {
+        let k = self.r.below(100);
+        if k < 18 {
+            if let Some(it) = self.constant(rn, upto_pkg) {
+                out.push(it);
+            }
+        } else if k < 34 {
+            if let Some(f) = self.func_ent(rn, upto_pkg, in_pkg_decl) {
+                if in_pkg_decl {
+                    self.pool.push(f.clone());
+                    out.push(Item::Decl(f));
+                } else if depth < if self.deep { 6 } else { 4 } {
+                    self.fun_body(f, upto_pkg, depth, out);
+                }
+            }
+        } else if k < 34 + if self.deep { 26 } else { 18 } {
+            if let Some(it) = self.use_item(upto_pkg) {
+                out.push(it);
+            }
+        } else {
+            let s = self.site(upto_pkg);
+            out.push(s);
+        }
+    }
+    fn type_decl(&mut self, rn: &mut RegionNames, uid: u32, out: &mut Vec<Item>) {
+        let name = *self.r.pick(&TNAMES);
+        if !rn.can_single(name) {
+            return;
+        }
+        self.next_ty += 1;
+        if self.r.chance(1, 4) {
+            let t = Ty::Int(self.next_ty);
+            rn.single.push(name);
+            out.push(Item::Decl(Ent { id: self.id(), des: name, kind: Kind::Type(t, vec![]), declby: None }));
+            self.types.push((t, false, uid));
+        } else {
+            let t = Ty::Oth(self.next_ty);
+            let mut ds = vec![100 + self.next_ty];
+            for d in VALS.iter().chain([30u32, 31].iter()) {
+                if self.r.chance(1, 2) {
+                    ds.push(*d);
+                }
+            }
+            // every literal must be declarable in this region
+            if !ds.iter().all(|d| rn.can_over(*d, None, t)) {
+                return;
+            }
+            rn.single.push(name);
+            let mut lits = vec![];
+            for d in ds.iter() {
+                let id = self.id();
+                rn.over.push((*d, None, t));
+                lits.push((id, *d));
+                let le = Ent { id, des: *d, kind: Kind::Lit(t), declby: None };
+                self.pool.push(le.clone());
+                out.push(Item::Decl(le));
+            }
+            let te = Ent { id: self.id(), des: name, kind: Kind::Type(t, lits), declby: None };
+            self.pool.push(te.clone());
+            out.push(Item::Decl(te));
+            self.types.push((t, true, uid));
+        }
+        self.pkg_names.entry(uid).or_default().push(name);
+    }
+    fn context(&mut self, upto_pkg: u32) -> Vec<Item> {
+        let mut ctx = vec![];
+        let n = self.r.below(3);
+        for _ in 0..n {
+            if let Some(u) = self.use_item(upto_pkg) {
+                ctx.push(u);
+            }
+        }
+        ctx
+    }
+    fn package(&mut self, uid: u32, lib: u32) -> Unit {
+        self.pool.clear();
+        let ctx = self.context(uid);
+        let mut body = vec![];
+        let mut rn = RegionNames::default();
+        let ntypes = 1 + self.r.below(2);
+        for _ in 0..ntypes {
+            self.type_decl(&mut rn, uid, &mut body);
+        }
+        let n = 2 + self.r.below(6);
+        for _ in 0..n {
+            self.decl_item(&mut rn, uid, 1, true, &mut body);
+        }
+        let mut names = self.pkg_names.remove(&uid).unwrap_or_default();
+        let mut funcs = vec![];
+        for it in body.iter() {
+            if let Item::Decl(e) = it {
+                if e.des < 100 && !names.contains(&e.des) {
+                    names.push(e.des);
+                }
+                if let Kind::Func(..) = e.kind {
+                    funcs.push(e.clone());
+                }
+            }
+        }
+        self.pkg_names.insert(uid, names);
+        self.pkg_funcs.insert(uid, funcs);
+        let ents: Vec<Ent> = body.iter().filter_map(|it| if let Item::Decl(e) = it { Some(e.clone()) } else { None }).collect();
+        self.pkg_ents.insert(uid, ents);
+        Unit { uid, kind: UKind::Package, ctx, body, lib }
+    }
+    fn package_body(&mut self, uid: u32, of: u32, lib: u32, npkgs: u32) -> Unit {
+        self.pool = self.pkg_ents.get(&of).cloned().unwrap_or_default();
+        let ctx = if self.r.chance(1, 3) { self.context(npkgs + 1) } else { vec![] };
+        let mut body = vec![];
+        // the region of the body continues the package's: only fresh names are declared here
+        let mut rn = RegionNames::default();
+        rn.single.extend(VALS.iter().chain(TNAMES.iter()).chain([20u32, 21, 30, 31].iter()));
+        let funcs = self.pkg_funcs.get(&of).cloned().unwrap_or_default();
+        for f in funcs {
+            if self.r.chance(1, 3) {
+                let s = self.site(npkgs + 1);
+                body.push(s);
+            }
+            if self.r.chance(1, 4) {
+                if let Some(u) = self.use_item(npkgs + 1) {
+                    body.push(u);
+                }
+            }
+            let fb = Ent { id: self.id(), des: f.des, kind: f.kind.clone(), declby: Some(f.id) };
+            self.fun_body(fb, npkgs + 1, 1, &mut body);
+        }
+        let n = self.r.below(3);
+        for _ in 0..n {
+            let s = self.site(npkgs + 1);
+            body.push(s);
+        }
+        let _ = &mut rn;
+        Unit { uid, kind: UKind::Secondary(of), ctx, body, lib }
+    }
+    fn region_items(&mut self, rn: &mut RegionNames, upto_pkg: u32, depth: u32, out: &mut Vec<Item>) {
+        let n = 1 + self.r.below(6);
+        for _ in 0..n {
+            self.decl_item(rn, upto_pkg, depth, false, out);
+        }
+    }
+    fn concurrent(&mut self, upto_pkg: u32, depth: u32, out: &mut Vec<Item>) {
+        let maxd = if self.deep { 5 } else { 3 };
+        let nb = self.r.below(3);
+        for _ in 0..nb {
+            if self.r.chance(1, 2) {
+                out.push(Item::OpenProcess);
+                let mut rn = RegionNames::default();
+                let mark = self.pool.len();
+                self.region_items(&mut rn, upto_pkg, depth + 1, out);
+                self.pool.truncate(mark);
+                out.push(Item::Close);
+            } else {
+                out.push(Item::OpenBlock);
+                let mut rn = RegionNames::default();
+                let mark = self.pool.len();
+                self.region_items(&mut rn, upto_pkg, depth + 1, out);
+                if depth + 1 < maxd {
+                    self.concurrent(upto_pkg, depth + 1, out);
+                }
+                self.pool.truncate(mark);
+                out.push(Item::Close);
+            }
+        }
+    }
+    fn program(&mut self) -> Program {
+        let npkgs = 2 + self.r.below(3) as u32;
+        let nlibs = 1 + self.r.below(3) as u32;
+        let mut prog = vec![];
+        for uid in 1..=npkgs {
+            let lib = self.r.below(nlibs as usize) as u32;
+            prog.push(self.package(uid, lib));
+        }
+        let mut uid = npkgs;
+        for of in 1..=npkgs {
+            let has_funcs = !self.pkg_funcs.get(&of).map(|v| v.is_empty()).unwrap_or(true);
+            if has_funcs || self.r.chance(1, 4) {
+                uid += 1;
+                let lib = prog[(of - 1) as usize].lib;
+                let b = self.package_body(uid, of, lib, npkgs);
+                prog.push(b);
+            }
+        }
+        let nent = 1 + self.r.below(2);
+        for _ in 0..nent {
+            uid += 1;
+            let e = uid;
+            let lib = self.r.below(nlibs as usize) as u32;
+            self.pool.clear();
+            let ctx = self.context(npkgs + 1);
+            let mut rn = RegionNames::default();
+            let mut ebody = vec![];
+            if self.r.chance(1, 3) {
+                self.region_items(&mut rn, npkgs + 1, 1, &mut ebody);
+            }
+            prog.push(Unit { uid: e, kind: UKind::Entity, ctx, body: ebody, lib });
+            uid += 1;
+            let actx = if self.r.chance(1, 2) { self.context(npkgs + 1) } else { vec![] };
+            let mut abody = vec![];
+            // the architecture continues the entity's region
+            self.region_items(&mut rn, npkgs + 1, 1, &mut abody);
+            self.concurrent(npkgs + 1, 1, &mut abody);
+            prog.push(Unit { uid, kind: UKind::Secondary(e), ctx: actx, body: abody, lib });
+        }
+        prog
+    }
+}
+fn generate(seed: u64, idx: u64, deep: bool) -> Program {
+    let mut base = Rng::new(seed);
+    for _ in 0..(idx % 7) {
+        base.next();
+    }
+    let r = Rng::new(seed.wrapping_mul(1_000_003).wrapping_add(idx).wrapping_add(base.next() % 1000));
+    let mut g = Gen {
+        r,
+        next_id: 0,
+        next_sid: 0,
+        next_ty: 9,
+        pkg_profiles: vec![],
+        types: vec![],
+        pkg_names: HashMap::new(),
+        pkg_funcs: HashMap::new(),
+        pkg_ents: HashMap::new(),
+        pool: vec![],
+        deep,
+    };
+    g.program()
+}
+
+// ------------------------------------------------------------------------------------------------
+// implementation side
+// ------------------------------------------------------------------------------------------------
+fn new_project(dir: &Path, libs: &[(String, Vec<String>)]) -> Project {
     let mut msgs = NullMessages;
     let mut cfg = Config::default();
     cfg.load_external_config(&mut msgs, Some("/repo/vhdl_libraries".to_string()));
-    let toml = format!(
-        "[libraries]\nlib.files=[{}]\n",
-        files.iter().map(|n| format!("'{}'", n)).collect::<Vec<_>>().join(",")
-    );
-    cfg.append(&Config::from_str(&toml, Path::new(dir)).unwrap(), &mut msgs);
-    let mut p = Project::from_config(cfg, &mut msgs);
+    let mut toml = String::from("[libraries]\n");
+    for (name, files) in libs {
+        writeln!(
+            toml,
+            "{}.files=[{}]",
+            name,
+            files.iter().map(|n| format!("'{}'", n)).collect::<Vec<_>>().join(",")
+        )
+        .unwrap();
+    }
+    cfg.append(&Config::from_str(&toml, dir).unwrap(), &mut msgs);
+    Project::from_config(cfg, &mut msgs)
+}
+
+/// analyse a batch of programs in one Project (distinct library names per program)
+fn run_batch(dir: &Path, batch: &[(usize, Program)]) -> Result<Vec<String>, String> {
+    std::fs::create_dir_all(dir).map_err(|e| e.to_string())?;
+    let mut libs: Vec<(String, Vec<String>)> = vec![];
+    let mut rendered = vec![];
+    for (idx, p) in batch {
+        let idx = *idx;
+        let r = render(p, &move |l| format!("q{idx}lib{l}"));
+        let mut paths = vec![];
+        for (l, text) in r.files.iter() {
+            let fname = format!("q{idx}_{l}.vhd");
+            std::fs::write(dir.join(&fname), text).map_err(|e| e.to_string())?;
+            libs.push((format!("q{idx}lib{l}"), vec![fname.clone()]));
+            paths.push(dir.join(&fname));
+        }
+        rendered.push((r, paths));
+    }
+    let res = catch_unwind(AssertUnwindSafe(|| {
+        let mut project = new_project(dir, &libs);
+        let diags = project.analyse();
+        let sm = SeverityMap::default();
+        let mut out = vec![];
+        for (r, paths) in rendered.iter() {
+            let canon: Vec<PathBuf> = paths.iter().map(|p| std::fs::canonicalize(p).unwrap_or(p.clone())).collect();
+            let file_index = |fname: &Path| -> Option<usize> {
+                canon.iter().position(|p| p == fname).or_else(|| paths.iter().position(|p| p == fname))
+            };
+            // error diagnostics per (file, line)
+            let mut errs: HashMap<(usize, u32), Vec<(String, bool)>> = HashMap::new();
+            for d in diags.iter() {
+                if sm[d.code] != Some(Severity::Error) {
+                    continue;
+                }
+                if let Some(fi) = file_index(d.pos.source.file_name()) {
+                    errs.entry((fi, d.pos.range.start.line))
+                        .or_default()
+                        .push((format!("{:?}", d.code), d.message.starts_with("No declaration of")));
+                }
+            }
+            let mut line = String::new();
+            let mut site_lines = vec![];
+            for (sid, fi, l, c) in r.sites.iter() {
+                site_lines.push((*fi, *l));
+                let src = project.get_source(&paths[*fi]).expect("source");
+                let target = match project
+                    .find_declaration(&src, Position::new(*l, *c))
+                    .and_then(|e| e.decl_pos().cloned())
+                {
+                    None => "-".to_string(),
+                    Some(pos) => match file_index(pos.source.file_name()) {
+                        None => "EXT".to_string(),
+                        Some(dfi) => match r.decls.get(&(dfi, pos.range.start.line, pos.range.start.character)) {
+                            Some(id) => id.to_string(),
+                            None => format!("POS{}.{}.{}", dfi, pos.range.start.line, pos.range.start.character),
+                        },
+                    },
+                };
+                let (class, codes) = match errs.get(&(*fi, *l)) {
+                    None => ("OK", String::new()),
+                    Some(v) => {
+                        let codes = v.iter().map(|x| x.0.clone()).collect::<Vec<_>>().join("+");
+                        if v.iter().any(|x| x.0 == "ConflictingUseClause") {
+                            ("CONFLICT", codes)
+                        } else if v.iter().any(|x| x.0 == "Unresolved" && x.1) {
+                            ("UNDECL", codes)
+                        } else {
+                            ("ERROR", codes)
+                        }
+                    }
+                };
+                write!(line, "{sid}:{target}:{class}:{codes} ").unwrap();
+            }
+            line.push(';');
+            let mut extra: Vec<String> = errs
+                .iter()
+                .filter(|(k, _)| !site_lines.contains(k))
+                .map(|(k, v)| format!("{}.{}.{}", k.0, k.1, v.iter().map(|x| x.0.clone()).collect::<Vec<_>>().join("+")))
+                .collect();
+            extra.sort();
+            line.push_str(&extra.join(" "));
+            out.push(line);
+        }
+        out
+    }));
+    res.map_err(|_| "PANIC".to_string())
+}
+
+fn run_all(workdir: &Path, progs: Vec<Program>, batch_size: usize) -> Vec<String> {
+    let n = progs.len();
+    let indexed: Vec<(usize, Program)> = progs.into_iter().enumerate().collect();
+    let batches: Vec<Vec<(usize, Program)>> = indexed.chunks(batch_size).map(|c| c.to_vec()).collect();
+    let results = std::sync::Mutex::new(vec![String::new(); n]);
+    let next = std::sync::atomic::AtomicUsize::new(0);
+    let threads = std::thread::available_parallelism().map(|x| x.get()).unwrap_or(4).min(16);
+    std::thread::scope(|s| {
+        for _ in 0..threads {
+            s.spawn(|| loop {
+                let b = next.fetch_add(1, std::sync::atomic::Ordering::SeqCst);
+                if b >= batches.len() {
+                    break;
+                }
+                let dir = workdir.join(format!("b{b}"));
+                let _ = std::fs::remove_dir_all(&dir);
+                let outs = match run_batch(&dir, &batches[b]) {
+                    Ok(o) => o,
+                    Err(_) => {
+                        // isolate the panicking program
+                        let mut o = vec![];
+                        for (k, one) in batches[b].iter().enumerate() {
+                            let d1 = workdir.join(format!("b{b}_{k}"));
+                            let _ = std::fs::remove_dir_all(&d1);
+                            match run_batch(&d1, std::slice::from_ref(one)) {
+                                Ok(mut x) => o.push(x.pop().unwrap_or_default()),
+                                Err(e) => o.push(format!(";{e}")),
+                            }
+                        }
+                        o
+                    }
+                };
+                let mut r = results.lock().unwrap();
+                for ((idx, _), line) in batches[b].iter().zip(outs) {
+                    r[*idx] = line;
+                }
+            });
+        }
+    });
+    results.into_inner().unwrap()
+}
+
+fn probe(args: &[String]) {
+    let dir = &args[0];
+    let files: Vec<String> = args[1..].to_vec();
+    let mut p = new_project(Path::new(dir), &[("lib".to_string(), files)]);
     let diags = p.analyse();
     let sm = SeverityMap::default();
     for line in std::io::stdin().lock().lines() {
@@ -54,7 +1279,66 @@ fn probe(args: &[String]) {
 
 fn main() {
     let args: Vec<String> = std::env::args().skip(1).collect();
+    if args.is_empty() {
+        eprintln!("usage: c07 <mode> <seed> <n> <workdir> <cases_out> <impl_out>");
+        std::process::exit(2);
+    }
     if args[0] == "probe" {
         probe(&args[1..]);
+        return;
     }
+    std::panic::set_hook(Box::new(|_| {}));
+    let mode = args[0].clone();
+    let seed: u64 = args[1].parse().unwrap();
+    let n: u64 = args[2].parse().unwrap();
+    let workdir = PathBuf::from(&args[3]);
+    let mut progs: Vec<Program> = vec![];
+    let mut lines: Vec<String> = vec![];
+    if let Some(path) = mode.strip_prefix("file:") {
+        for l in std::fs::read_to_string(path).unwrap().lines() {
+            let l = l.trim();
+            if l.is_empty() || l.starts_with('#') {
+                continue;
+            }
+            match parse_program(l) {
+                Ok(p) => {
+                    lines.push(l.to_string());
+                    progs.push(p);
+                }
+                Err(e) => {
+                    eprintln!("bad case: {e}");
+                    std::process::exit(3);
+                }
+            }
+        }
+    } else {
+        let deep = mode == "deep";
+        for i in 0..n {
+            let p = generate(seed, i, deep);
+            lines.push(ser_program(&p));
+            progs.push(p);
+        }
+    }
+    if args.len() > 6 && args[6] == "render" {
+        // debugging aid: print the VHDL of every program
+        for p in progs.iter() {
+            let r = render(p, &|l| format!("lib{l}"));
+            for (l, t) in r.files {
+                println!("-- library lib{l}\n{t}");
+            }
+        }
+        return;
+    }
+    let mut fc = std::io::BufWriter::new(std::fs::File::create(&args[4]).unwrap());
+    for l in lines.iter() {
+        writeln!(fc, "{l}").unwrap();
+    }
+    fc.flush().unwrap();
+    std::fs::create_dir_all(&workdir).unwrap();
+    let outs = run_all(&workdir, progs, 25);
+    let mut fi = std::io::BufWriter::new(std::fs::File::create(&args[5]).unwrap());
+    for l in outs.iter() {
+        writeln!(fi, "{l}").unwrap();
+    }
+    fi.flush().unwrap();
 }
